@@ -307,6 +307,97 @@ pub fn generate(files: &[SourceFile], report: &mut Report) -> String {
         }
         out.push_str(&format!("\n/-- `{}`: lock_root / unlock_root and runs of stores to list cells / tree links, in source order -/\ndef {} : List String := [{}]\n", fname, lname, order.iter().map(|x| lean_str(x)).collect::<Vec<_>>().join(", ")));
     }
+    // bin locks (`Proto/BinW`, `BinT`, `BinX`: wLock -> wCheck -> write): per function of map.rs that
+    // takes a bin lock, in source order: `lock` (a `.lock.lock()`), `binload` (a `.bin(..)` load of
+    // the bin cell), `recheck` (an `if` whose condition compares that cell with `!=`), `write`
+    // (store / swap / CAS of a cell, store_bin / cas_bin, a retirement)
+    {
+        let mut per_fn: Vec<(String, Vec<String>)> = vec![];
+        if let Some(f) = file(files, "map.rs") {
+            for fname in ["transfer", "put", "replace_node", "compute_if_present", "clear", "treeify_bin", "retain", "retain_force", "try_insert", "insert"] {
+                let Some(fi) = find_fn(f, fname) else { continue };
+                struct L<'a> {
+                    out: &'a mut Vec<String>,
+                }
+                impl<'ast, 'a> Visit<'ast> for L<'a> {
+                    fn visit_expr_if(&mut self, i: &'ast syn::ExprIf) {
+                        // the condition is evaluated first
+                        self.visit_expr(&i.cond);
+                        let c = tokens_of(&*i.cond);
+                        if c.contains("!=") && (c.contains(". bin (") || c.contains(".bin(") || c.contains("current_head")) {
+                            self.out.push("recheck".into());
+                        }
+                        self.visit_block(&i.then_branch);
+                        if let Some((_, e)) = &i.else_branch {
+                            self.visit_expr(e);
+                        }
+                    }
+                    fn visit_expr_method_call(&mut self, m: &'ast syn::ExprMethodCall) {
+                        syn::visit::visit_expr_method_call(self, m);
+                        let name = m.method.to_string();
+                        let recv = tokens_of(&m.receiver).replace(' ', "");
+                        match name.as_str() {
+                            "lock" if m.args.is_empty() && recv.ends_with(".lock") => self.out.push("lock".into()),
+                            "bin" if m.args.len() == 2 => self.out.push("binload".into()),
+                            "store" | "swap" | "compare_exchange" | "store_bin" | "cas_bin" | "retire_shared" | "defer_retire" => {
+                                if self.out.last().map(|x| x.as_str()) != Some("write") {
+                                    self.out.push("write".into());
+                                }
+                            }
+                            _ => {}
+                        }
+                    }
+                }
+                let mut order = vec![];
+                let mut l = L { out: &mut order };
+                l.visit_block(fi.block);
+                if order.iter().any(|x| x == "lock") {
+                    per_fn.push((fname.to_string(), order));
+                }
+            }
+        }
+        out.push_str("\n/-- per function of map.rs that takes a bin lock, in source order: `lock` / `binload` (load of the bin cell) / `recheck` (an `if` comparing the cell with `!=`) / `write` (runs of stores, swaps, CASes, retirements) -/\ndef binLockOrder : List (String × List String) := [\n");
+        out.push_str(&per_fn.iter().map(|(f, o)| format!("  ({}, [{}])", lean_str(f), o.iter().map(|x| lean_str(x)).collect::<Vec<_>>().join(", "))).collect::<Vec<_>>().join(",\n"));
+        out.push_str("]\n");
+        report.count("bin_lock_sites", per_fn.iter().map(|(_, o)| o.iter().filter(|x| *x == "lock").count()).sum());
+    }
+    // `clear` (`Proto/BinXC`: cTable -> cWait -> cCell): in source order, the call of
+    // `help_transfer`, a `while` that re-loads `self.table` and compares it with `==` (the wait for
+    // the commit of the resize, finding F7), and the assignment `idx = 0` (restart in the new table)
+    {
+        let mut order: Vec<String> = vec![];
+        if let Some(f) = file(files, "map.rs") {
+            if let Some(fi) = find_fn(f, "clear") {
+                struct C<'a> {
+                    out: &'a mut Vec<String>,
+                }
+                impl<'ast, 'a> Visit<'ast> for C<'a> {
+                    fn visit_expr_while(&mut self, w: &'ast syn::ExprWhile) {
+                        let c = tokens_of(&*w.cond).replace(' ', "");
+                        if c.contains("self.table.load(") && c.contains("==") {
+                            self.out.push("wait-commit".into());
+                        }
+                        syn::visit::visit_expr_while(self, w);
+                    }
+                    fn visit_expr_assign(&mut self, a: &'ast syn::ExprAssign) {
+                        syn::visit::visit_expr_assign(self, a);
+                        if tokens_of(&*a.left).trim() == "idx" && tokens_of(&*a.right).trim() == "0" {
+                            self.out.push("restart".into());
+                        }
+                    }
+                    fn visit_expr_method_call(&mut self, m: &'ast syn::ExprMethodCall) {
+                        syn::visit::visit_expr_method_call(self, m);
+                        if m.method == "help_transfer" {
+                            self.out.push("help".into());
+                        }
+                    }
+                }
+                let mut c = C { out: &mut order };
+                c.visit_block(fi.block);
+            }
+        }
+        out.push_str(&format!("\n/-- `clear`, in source order: `help` (help_transfer) / `wait-commit` (a `while self.table.load(..) == ..` loop) / `restart` (`idx = 0`) -/\ndef clearMovedOrder : List String := [{}]\n", order.iter().map(|x| lean_str(x)).collect::<Vec<_>>().join(", ")));
+    }
     out.push_str("\nend Flurry.Gen\n");
     report.count("read_closure", clos.len());
     report.count("atomic_sites", sites.len());
